@@ -17,3 +17,4 @@ def check(ctx, env):
     K.r4_3_fail_closed(ctx, prog)
     K.r4_4_exhaustive(ctx, prog)
     K.r4_5_siblings(ctx, prog)
+    K.r18_5_builder(ctx, prog, rule="R4.6")
